@@ -1563,7 +1563,7 @@ func boolPredicatesCalledBy(f *ssa.Function, stopAt ...*ssa.Function) []*ssa.Fun
 
 // R09.5
 var ruleLexTables = &core.Rule{ID: "R09.5", Min: 6,
-	Doc: "lexical tables of the scalar scanners, tabulated over 0..255: white space is exactly SP HT LF CR; digits are 0-9; hex digits are 0-9a-fA-F; in the string scanner only '\"' ends the string and only '\\\\' starts an escape, the one-character escapes are exactly \" \\\\ / b f n r t, 'u' goes on to the hex digits, every other escape fails; a non-hex digit in \\\\uXXXX fails; the tables are taken over the scanner and the family helpers it delegates to",
+	Doc: "lexical tables of the scalar scanners, tabulated over 0..255: white space is exactly SP HT LF CR; digits are 0-9; hex digits are 0-9a-fA-F; in the string scanner only '\"' ends the string and only '\\\\' starts an escape, the one-character escapes are exactly \" \\\\ / b f n r t, 'u' goes on to the hex digits, every other escape fails; a non-hex digit in \\\\uXXXX fails; the hex-digit loop has the constant trip bound 4 (counter form or range over min(4, rest)); the tables are taken over the scanner and the family helpers it delegates to",
 	Run: func(c *core.Ctx, s *core.Sink) {
 		m := getJSON(c)
 		g := m.guardFn
@@ -1913,6 +1913,32 @@ func hexLoopBound(hb *ssa.BasicBlock) (int64, string) {
 				i0 = k
 			} else {
 				okInit = false
+			}
+		}
+		// position form: for end := min(n+K, len(b)); n < end; n++ — the position itself counts, up to K past its start
+		if okStep {
+			if iff := core.IfOf(hdr); iff != nil {
+				if bo, ok := iff.Cond.(*ssa.BinOp); ok && bo.Op == token.LSS && bo.X == ssa.Value(ph) {
+					if call, ok := bo.Y.(*ssa.Call); ok {
+						if bi, isB := call.Call.Value.(*ssa.Builtin); isB && bi.Name() == "min" {
+							for _, a := range call.Call.Args {
+								add, ok := a.(*ssa.BinOp)
+								if !ok || add.Op != token.ADD {
+									continue
+								}
+								k, isK := core.ConstInt(add.Y)
+								if !isK {
+									continue
+								}
+								for i, p := range hdr.Preds {
+									if !hdr.Dominates(p) && ph.Edges[i] == add.X {
+										return k, fmt.Sprintf("position < min(start+%d, ...) at the loop header", k)
+									}
+								}
+							}
+						}
+					}
+				}
 			}
 		}
 		if !okInit || !okStep {
